@@ -5,7 +5,7 @@ quantify over.  A curve is a list of [x, y] Python floats.
 """
 import math
 
-FAMILIES = ('mrc', 'noisy', 'plateau', 'zeros', 'collinear', 'walk', 'constant', 'elbow', 'offset')
+FAMILIES = ('mrc', 'noisy', 'plateau', 'zeros', 'collinear', 'walk', 'constant', 'elbow', 'offset', 'periodic', 'ulps')
 
 
 def _xs(rng, n, kind):
@@ -106,6 +106,18 @@ def gen_curve(rng, n, family=None, scale=True):
         amp = rng.choice([1.0, 1.0, 10.0, 0.01]) * rng.uniform(0.5, 2)
         for i in range(n):
             ys.append(base + amp * (math.exp(-4.0 * i / n) + rng.uniform(-0.05, 0.05)))
+    elif family == 'periodic':
+        # a y pattern that repeats (on an x grid that need not): stretches with identical y bytes, different geometry
+        k = rng.randint(2, 6)
+        pat = [rng.choice([1.0, 2.0, 5.0, 8.0, 0.0, 3.5]) for _ in range(k)]
+        if len(set(pat)) == 1:
+            pat[0] += 1.0
+        amp = rng.choice([1.0, 10.0, 0.5])
+        ys = [amp * pat[i % k] for i in range(n)]
+    elif family == 'ulps':
+        # a level whose samples differ by a few units in the last place
+        v = rng.choice([1.0, 0.5, 100.0, 123456.789, 1e-3])
+        ys = [v * (1.0 + rng.randint(0, 300) * 2.0 ** -52) for _ in range(n)]
     elif family == 'elbow':
         k = rng.randrange(1, max(2, n - 1))
         m1 = -rng.uniform(1, 20)
